@@ -1557,6 +1557,45 @@ fn search_bridge_conn(obs: &[&str]) {
     for ob in obs { emit(ob, found.is_some(), explored, found.clone().unwrap_or(Value::Null)); }
 }
 
+// C11, BOUNDED (not a proof): every interface name of length <= 7 over the alphabet {a, B, 0, -, .} is put in front of one method and parsed; the name must be
+// accepted exactly when it is a reverse-domain name whose elements neither start nor end with a hyphen (>= 2 non-empty elements of letters, digits and inner
+// hyphens, the first starting with a letter).  The peg grammar itself is outside the verifier's reach; this stands in for it, up to the bound.
+fn search_iface_names(obs: &[&str]) {
+    use std::convert::TryFrom;
+    use varlink_parser::IDL;
+    let mut found: Option<Value> = None;
+    let mut explored = 0usize;
+    let alpha = ['a', 'B', '0', '-', '.'];
+    let mut names: Vec<String> = vec![String::new()];
+    let mut frontier: Vec<String> = vec![String::new()];
+    for _ in 0..7 {
+        let mut next = Vec::new();
+        for n in &frontier { for c in alpha { let mut m = n.clone(); m.push(c); next.push(m); } }
+        names.extend(next.iter().cloned());
+        frontier = next;
+    }
+    let elem_ok = |e: &str, first: bool| -> bool {
+        let cs: Vec<char> = e.chars().collect();
+        if cs.is_empty() || cs[0] == '-' || *cs.last().unwrap() == '-' { return false; }
+        if first && !cs[0].is_ascii_alphabetic() { return false; }
+        // the grammar in the tree restricts the REST of the first element to lower case, digits and hyphens; that restriction is not part of the property
+        if first && cs[1..].iter().any(|c| c.is_ascii_uppercase()) { return false; }
+        true
+    };
+    for n in names {
+        if n.is_empty() { continue; }
+        explored += 1;
+        let elems: Vec<&str> = n.split('.').collect();
+        let want = elems.len() >= 2 && elems.iter().enumerate().all(|(i, e)| elem_ok(e, i == 0));
+        let text = format!("interface {}\n\nmethod F() -> ()\n", n);
+        let got = IDL::try_from(text.as_str()).map(|i| i.name == n).unwrap_or(false);
+        if got != want && found.is_none() {
+            found = Some(json!({"interface_name": n, "accepted": got, "expected_accepted": want, "rule": "elements are non-empty, neither start nor end with a hyphen, at least two of them, the first starts with a letter"}));
+        }
+    }
+    for ob in obs { emit(ob, found.is_some(), explored, found.clone().unwrap_or(Value::Null)); }
+}
+
 fn main() {
     if std::env::args().nth(1).as_deref() == Some("--bridge-probe") {
         std::process::exit(bridge_probe(&std::env::args().nth(2).unwrap_or_default()));
@@ -1592,6 +1631,7 @@ fn main() {
     let lt: Vec<&str> = ["C15.idle", "C15.drain", "C15.drain-w", "C15.busy", "C15.stop", "C15.no-panic"].iter().cloned().filter(|o| m(o)).collect();
     if !lt.is_empty() { search_listen_time(&lt); }
     if m("C15.unlink") { search_unlink("C15.unlink"); }
+    if m("C11.iface-name-bounded") { search_iface_names(&["C11.iface-name-bounded"]); }
     let idl: Vec<&str> = ["C11.dups-reported", "C11.reject-dups", "C11.no-false-dups", "C11.accept", "C11.order", "C11.mirror", "C11.reject-syntax", "C11.no-panic"].iter().cloned().filter(|o| m(o)).collect();
     if !idl.is_empty() { search_idl(&idl); }
     let ad: Vec<&str> = ["C16.scheme", "C16.params", "C16.activation", "C16.no-panic"].iter().cloned().filter(|o| m(o)).collect();
